@@ -187,13 +187,40 @@ func both(c *mon.Ctx, cs gen.Case, id string) {
 }
 
 // diagnose maps the symptoms of one well-understood deviation onto one stable key: when a frame
-// carries both warnings and a custom payload and swapping those two body parts explains the
-// disagreement, the key names the body-prefix order instead of the message kind.
+// carries both warnings and a custom payload, fails, and the same frame passes both directions with
+// either part removed, the key names the body-prefix order instead of the message kind.
 func diagnose(a *ref.Frame, libBytes []byte, key string) string {
 	if a.Warnings != nil && a.Payload != nil {
-		return "body-prefix-order/warnings-and-custom-payload"
+		noW, noP := *a, *a
+		noW.Warnings, noP.Payload = nil, nil
+		if conforms(&noW) && conforms(&noP) {
+			return "body-prefix-order/warnings-and-custom-payload"
+		}
 	}
 	return key
+}
+
+// conforms runs both directions quietly.
+func conforms(a *ref.Frame) bool {
+	f := bridge.ToLib(a, false, nil)
+	var buf bytes.Buffer
+	if err := codec.EncodeFrame(f, &buf); err != nil {
+		return false
+	}
+	a2, h, err := ref.DecodeFrame(buf.Bytes(), nil)
+	if err != nil || h.Flags != a.Flags() || !ref.Equal(ref.Norm(a), ref.Norm(a2)) {
+		return false
+	}
+	rb, err := ref.EncodeFrame(a, ref.EncOpts{})
+	if err != nil {
+		return false
+	}
+	f2, err := codec.DecodeFrame(bytes.NewReader(rb))
+	if err != nil {
+		return false
+	}
+	a3, fl, err := bridge.FromLib(f2)
+	return err == nil && fl == a.Flags() && ref.Equal(ref.Norm(a), a3)
 }
 
 // ---- (c) the header table ----------------------------------------------------------------------
